@@ -356,7 +356,12 @@ theorem flat_launch {N : Nat} {c : Cfg} (h : PInv N c) {m : QEv} (hm : m ∈ c.e
       show f.jid < c.nextJ + 1
       omega
   · -- the join: a fresh record
-    refine ⟨by simp, by simp, ?_, by simp, by simp, by simp, by simp, by simp, by simp [heldE], by simp [heldR]⟩
+    refine ⟨by simp, by simp, ?_, by simp, by simp, by simp, by simp, by simp, by simp [heldE], by simp [heldR], ?_⟩
+    rotate_left
+    · intro h0
+      rw [hevk _ rfl] at h0
+      obtain ⟨e, he, _⟩ := hcov 0 (Nat.le_refl _) (by omega)
+      exact absurd h0 (List.ne_nil_of_mem (List.mem_map.mpr ⟨e, he, rfl⟩))
     intro j hj p hp f' hf'
     simp only [List.mem_singleton] at hj
     subst hj
